@@ -37,11 +37,21 @@ def cases(draw):
     recipe = draw(gen.problem_recipe(densities=(10, 10, 10, 6, 12)))
     iters = st.one_of(st.sampled_from([1, 2, 3, 30, 100, 200, 400, 400]), st.integers(5, 400))
     params = draw(gen.solver_params(recipe["n"], recipe["density"], iters, cheap=False))
-    if draw(st.booleans()):
+    mode = draw(st.sampled_from(["solve", "solve", "solve", "batches", "batches", "continue"]))
+    if mode == "solve":
         drive = "solve"
-    else:
+    elif mode == "batches":
         total = draw(st.integers(1, max(1, min(params["itersLimit"], 200))))
         drive = draw(gen.compositions(total))
+    else:
+        # the search is continued past its budget: DoGlobalIteration ignores itersLimit, so a solver built with a
+        # small limit can be driven for hundreds of further trials (optionally with a Solve in between, which
+        # must not add trials once the budget is reached)
+        params = dict(params, itersLimit=draw(st.sampled_from([1, 2, 3, 5, 10, 20, 30, 60, 100])))
+        total = draw(st.sampled_from([50, 150, 300, 500]))
+        drive = draw(gen.compositions(total, max_parts=5))
+        if draw(st.booleans()):
+            drive.insert(draw(st.integers(0, len(drive))), "solve")
     return {"recipe": recipe, "params": params, "drive": drive}
 
 
@@ -71,7 +81,12 @@ def drive_run(case):
         return run, run.history(), ("Exception was thrown" in run.stdout())
     try:
         for k in case["drive"]:
-            run.step(k)
+            if k == "solve":
+                run.solve()
+                if "Exception was thrown" in run.stdout():
+                    return run, run.history(), True
+            else:
+                run.step(k)
         return run, run.history(), False
     except Exception as e:
         if "outside of interval" not in str(e):
@@ -79,8 +94,14 @@ def drive_run(case):
     # the batch was cut short by the method's own error: redo with single steps to see every trial
     run = Run(case["recipe"], case["params"])
     try:
-        for _ in range(sum(case["drive"])):
-            run.step(1)
+        for k in case["drive"]:
+            if k == "solve":
+                run.solve()
+                if "Exception was thrown" in run.stdout():
+                    return run, run.history(), True
+                continue
+            for _ in range(k):
+                run.step(1)
     except Exception as e:
         if "outside of interval" not in str(e):
             raise
@@ -94,7 +115,9 @@ def body(case):
     cross_check_log(run, hist)
     n, r = run.n, case["params"]["r"]
     model, info = replay_history(n, r, hist, check_rule=True)
-    classes = ["N=%d" % n, "drive=%s" % ("solve" if case["drive"] == "solve" else "batches"),
+    over = case["drive"] != "solve" and len(hist) > case["params"]["itersLimit"]
+    classes = ["N=%d" % n, "drive=%s" % ("solve" if case["drive"] == "solve" else
+                                       ("continued-past-budget" if over else "batches")),
                "family=%s" % case["recipe"]["obj"]["family"]]
     if errored:
         if not model.next_is_degenerate():
